@@ -32,6 +32,12 @@ RULES: Dict[str, str] = {
     'R-KEEP-PRED': 'sa.rules.shape:run_keep',
     'R-PREFIX-PROTOCOL': 'sa.rules.shape:run_prefix',
     'R-AMBIG-INDEX': 'sa.rules.shape:run_ambig_index',
+    'R-NODECACHE': 'sa.rules.forest:run_nodecache',
+    'R-VISIT-GUARD': 'sa.rules.forest:run_visit_guard',
+    'R-ORDER-DET': 'sa.rules.order:run_order',
+    'R-PRIO-SIBLINGS': 'sa.rules.order:run_prio',
+    'R-LEX-PRECEDENCE': 'sa.rules.lexprec:run',
+    'R-EXC-DISCIPLINE': 'sa.rules.exc:run',
 }
 
 PROPERTIES: Dict[str, dict] = {}
